@@ -9,7 +9,7 @@ SUITE=0
 if [ "${1:-}" = "--suite" ]; then SUITE=1; shift; fi
 export GOFLAGS=-mod=mod GOPROXY=off GOSUMDB=off GOTOOLCHAIN=local
 if ! git -C /repo diff --quiet; then echo "seedtest: /repo is not clean" >&2; exit 2; fi
-git -C /repo apply "$P" 2>/dev/null || git -C /repo apply --3way "$P" 2>/dev/null || { echo "seedtest: patch does not apply" >&2; exit 2; }
+git -C /repo apply "$P" 2>/dev/null || git -C /repo apply --3way "$P" 2>/dev/null || { git -C /repo reset -q --hard HEAD; echo "seedtest: patch does not apply" >&2; exit 2; }
 git -C /repo reset -q 2>/dev/null
 trap 'git -C /repo checkout -- . ; git -C /repo clean -fdq' EXIT
 if [ $SUITE = 1 ]; then
